@@ -9,7 +9,7 @@ import (
 func init() {
 	register(&Check{
 		ID: "C11", Level: "exploration", QuickSecs: 150, ThoroughSecs: 1200,
-		Rule:        "skeletons over {'a',.,&{},!{},#{},A} x {?,*,&,!} x seq/choice up to N nodes (quick 4, thorough 5) under a rule-level action, second rule A with a display name and its own action; every fault script giving each block one of {ok, error e<id>, error with a message shared by all blocks, panic(error), panic(string)} with at most 3 faulting blocks, for code predicates both the matching and the failing result; inputs over {a,b} up to L=2; Recover(true)/Recover(false) x filename empty/non-empty; 2 generation flag sets. Compared with the reference: value, complete error list (text incl. file:line:col (offset): rule prefix, order, de-duplication by message), dynamic type errList of *parserError, Inner pointer-identical to the scripted error, panic containment vs propagation. Non-trivial = at least two recorded errors or a panic.",
+		Rule:        "skeletons over {'a',.,&{},!{},#{},A} x {?,*,&,!} x seq/choice up to N nodes (quick 4, thorough 5) under a rule-level action, second rule A with a display name and its own action; every fault script giving each block one of {ok, error e<id>, error with a message shared by all blocks, panic(error), panic(string)} with at most 3 faulting blocks, for code predicates both the matching and the failing result; inputs over {a,b} up to L=2; Recover(true)/Recover(false) x filename empty/non-empty; 2 generation flag sets; plus left-recursive rules (direct, tower, indirect pair) generated with -support-left-recursion with the same fault scripts. Compared with the reference: value, complete error list (text incl. file:line:col (offset): rule prefix, order, de-duplication by message), dynamic type errList of *parserError, Inner pointer-identical to the scripted error, panic containment vs propagation. Non-trivial = at least two recorded errors or a panic.",
 		Assumptions: []string{"E1 loader", "scripted probes as code blocks"},
 		Run:         runC11,
 	})
@@ -75,6 +75,34 @@ func runC11(c *ShardCtx) {
 	inputs := peg.Inputs([]string{"a", "b"}, 2)
 	opts := []rtapi.RunOpts{{MaxExpr: 600}, {MaxExpr: 600, Filename: "f.txt"}, {MaxExpr: 600, NoRecover: true}, {MaxExpr: 600, NoRecover: true, Filename: "f.txt"}}
 	idx := 0
+	// left-recursive rules (generated with -support-left-recursion): errors returned inside the
+	// seed and inside accepted growth iterations are kept, those of the final attempt are not
+	{
+		lit := peg.Lit
+		inputsLR := peg.Inputs([]string{"a", "b"}, 4)
+		var lrs []*peg.Grammar
+		for _, t := range []string{"a", "b"} {
+			lrs = append(lrs,
+				&peg.Grammar{Rules: []*peg.Rule{{Name: "S", Expr: peg.Action(0, peg.Seq(peg.Label("v", peg.Ref("E")), peg.Not(peg.Any())))}, {Name: "E", Expr: peg.Choice(peg.Action(0, peg.Seq(peg.Label("l", peg.Ref("E")), lit(t), peg.Label("r", peg.Ref("T")))), peg.Ref("T"))}, {Name: "T", Display: "term", Expr: peg.Action(0, peg.Cls(false, false, "a", "b"))}}},
+				&peg.Grammar{Rules: []*peg.Rule{{Name: "E", Expr: peg.Choice(peg.Action(0, peg.Seq(peg.Ref("E"), lit(t), peg.AndCode(0))), peg.Action(0, lit("b")))}}},
+				&peg.Grammar{Rules: []*peg.Rule{{Name: "A", Expr: peg.Choice(peg.Action(0, peg.Seq(peg.Ref("B"), lit(t))), peg.Action(0, lit("a")))}, {Name: "B", Expr: peg.Choice(peg.Action(0, peg.Seq(peg.Ref("A"), lit("b"))), lit("b"))}}},
+			)
+		}
+		for _, g := range lrs {
+			idx++
+			if !c.Mine(idx) {
+				continue
+			}
+			peg.Renumber(g, 1)
+			peg.AssignArgs(g)
+			famLR := &family{gens: []core.Gen{{LeftRec: true}, {LeftRec: true, Optimize: true}}, inputs: inputsLR, opts: opts, scripts: faultScripts(g.Blocks(), 2, true), nontrivial: nontriv,
+				cmp: core.CmpOpts{SkipLog: true}, confEvery: 2, confQuota: 1}
+			if g.Rule("A") != nil && g.Rule("B") != nil {
+				famLR.refOpts = func(o *peg.Options) { o.LeaderHeads = map[string]bool{"A": true} }
+			}
+			runGrammar(c, g, famLR)
+		}
+	}
 	for _, body := range en.UpTo(n) {
 		idx++
 		if !c.Mine(idx) {
